@@ -6,6 +6,7 @@ import (
 	"net/http"
 	"os"
 	"path/filepath"
+	"strconv"
 	"strings"
 	"sync"
 	"testing"
@@ -51,10 +52,11 @@ func TestRealClock(t *testing.T) {
 	var lines []string
 	for _, age := range []string{"9223372037", "9223372036", "9223372036854775807", "99999999999999999999"} {
 		for _, cc := range []string{"max-age=0, stale-while-revalidate=30", "max-age=1, stale-while-revalidate=60", "max-age=60, stale-while-revalidate=3600", "max-age=86400, stale-while-revalidate=5", "max-age=0"} {
-			for _, rcc := range []string{"", "max-stale=30", "min-fresh=5", "max-stale=9223372036"} {
+			for _, rcc := range []string{"", "max-stale=30", "min-fresh=5", "max-stale=9223372036", "max-stale", "only-if-cached"} {
 				dsn := registerConn(memcache.Open())
 				org := &rcOrigin{age: age, cc: cc}
 				rt := httpcache.NewTransport(dsn, httpcache.WithUpstream(org))
+				ageField := ""
 				get := func(h string) (string, string) {
 					req, _ := http.NewRequest("GET", "http://a.test/x", nil)
 					if h != "" {
@@ -66,6 +68,7 @@ func TestRealClock(t *testing.T) {
 					}
 					b, _ := io.ReadAll(resp.Body)
 					resp.Body.Close()
+					ageField = strings.Join(resp.Header.Values("Age"), "|")
 					return resp.Header.Get("X-Httpcache-Status"), string(b)
 				}
 				s1, _ := get("")
@@ -80,10 +83,18 @@ func TestRealClock(t *testing.T) {
 				// accepts a staleness of 2^63 ns and more (max-stale=9223372036 saturates too) may get it from the store
 				verdict := "ok"
 				fromStore := s2 == "HIT" || s2 == "STALE"
-				if fromStore && b2 == "b1" && rcc != "max-stale=9223372036" {
+				anyStaleness := rcc == "max-stale=9223372036" || rcc == "max-stale" || rcc == "only-if-cached"
+				if fromStore && b2 == "b1" && !anyStaleness {
 					verdict = "BAD"
 				}
-				lines = append(lines, fmt.Sprintf("REALCLOCK age=%s cc=%q req=%q | first=%s second=%s body=%s origin_calls=%d %s\n", age, cc, rcc, s1, s2, b2, calls, verdict))
+				// ... and when it is served, its Age field says so (C11): the age is at least the one it was received with,
+				// which is beyond 2^31 s; the nanoseconds that passed since must not wrap it around
+				if fromStore && b2 == "b1" && verdict == "ok" {
+					if n, err := strconv.ParseInt(ageField, 10, 64); err != nil || n < 1<<31 {
+						verdict = "BADAGE"
+					}
+				}
+				lines = append(lines, fmt.Sprintf("REALCLOCK age=%s cc=%q req=%q | first=%s second=%s body=%s age_field=%q origin_calls=%d %s\n", age, cc, rcc, s1, s2, b2, ageField, calls, verdict))
 			}
 		}
 	}
